@@ -1634,14 +1634,16 @@ def idx_list_to_index_array(idx_list):
     """
     if len(idx_list) == 0:
         return None
-    elif len(idx_list) == 1:
+    elif len(idx_list) == 1 and (idx_list[0]._flat_src or len(idx_list[0]._src_shape) < 2):
         return idx_list[0].shaped_array()
     else:
+        # this also handles a single non-flat indexer into a multidimensional source, where
+        # e.g. an int or an index array selects entire rows rather than single entries.
         idx = idx_list[0]
         arr = np.arange(shape_to_len(idx._src_shape)).reshape(idx._src_shape)
         for i in range(len(idx_list)):
             arr = idx_list[i].indexed_val(arr)
-        return arr
+        return np.atleast_1d(arr).ravel()
 
 
 def apply_idx_list(arr, idx_list):
